@@ -1,3 +1,9 @@
+/-
+  C11 — helper lemmas for Props.lean: semantics of the searches (`findIndex`, `lower_bound`), the
+  affine pieces of the linear interpolation, the local cubic (Hermite conditions, formal
+  derivatives), the Thomas algorithm invariant, the natural-spline equations, and the primitive
+  of the extrapolated spline used to characterise `computeIntegral`.
+-/
 import Mathlib.Algebra.Order.Field.Basic
 import Mathlib.Tactic.Ring
 import Mathlib.Tactic.FieldSimp
@@ -5,5 +11,373 @@ import Mathlib.Tactic.Linarith
 import Mathlib.Tactic.SplitIfs
 import TfelVerif.C11.Model
 
+set_option linter.unusedSectionVars false
+set_option linter.unusedVariables false
+
 namespace TfelVerif.C11
+
+variable {K : Type} [Field K] [LinearOrder K] [IsStrictOrderedRing K]
+
+theorem Vec.ext' {α : Type} {x x' : Vec α} (h : ∀ a, x.get a = x'.get a) : x = x' := by
+  cases x; cases x'; simp only [Vec.mk.injEq, and_true]; funext a; exact h a
+
+@[simp] theorem Vec.tab_eq {α : Type} (n : Nat) (x : Vec α) : x.tab n = x := by
+  apply Vec.ext'
+  intro a
+  simp only [Vec.tab]
+  split_ifs with h1
+  · simp
+  · rfl
+
+/-- the first `n` abscissae are strictly increasing -/
+def StrictInc (x : Vec K) (n : Nat) : Prop := ∀ i, i + 1 < n → x.get i < x.get (i + 1)
+
+theorem StrictInc.lt {x : Vec K} {n : Nat} (h : StrictInc x n) :
+    ∀ {i j : Nat}, i < j → j < n → x.get i < x.get j := by
+  intro i j hij
+  induction j with
+  | zero => omega
+  | succ j ih =>
+    intro hj
+    rcases Nat.lt_succ_iff_lt_or_eq.mp hij with h1 | h1
+    · exact lt_trans (ih h1 (by omega)) (h j hj)
+    · subst h1; exact h i hj
+
+theorem StrictInc.le {x : Vec K} {n : Nat} (h : StrictInc x n) {i j : Nat} (hij : i ≤ j) (hj : j < n) :
+    x.get i ≤ x.get j := by
+  rcases Nat.lt_or_eq_of_le hij with h1 | h1
+  · exact le_of_lt (h.lt h1 hj)
+  · subst h1; exact le_refl _
+
+theorem StrictInc.lt_imp {x : Vec K} {n : Nat} (h : StrictInc x n) {i j : Nat} (hi : i < n)
+    (hlt : x.get i < x.get j) : i < j := by
+  by_contra hc
+  have := h.le (Nat.le_of_not_lt hc) hi
+  exact absurd hlt (not_lt.mpr this)
+
+theorem findIndexFrom_spec (x : Vec K) (s : Nat) (a : K) :
+    ∀ fuel i, s ≤ i + fuel + 1 → i < s → (∀ j, j < i → x.get (j + 1) < a) →
+      i ≤ findIndexFrom x s a fuel i ∧ findIndexFrom x s a fuel i < s ∧
+      (∀ j, j < findIndexFrom x s a fuel i → x.get (j + 1) < a) ∧
+      (findIndexFrom x s a fuel i + 1 = s ∨ a ≤ x.get (findIndexFrom x s a fuel i + 1)) := by
+  intro fuel
+  induction fuel with
+  | zero =>
+    intro i h1 h2 h3
+    simp only [findIndexFrom]
+    exact ⟨le_refl _, h2, h3, Or.inl (by omega)⟩
+  | succ f ih =>
+    intro i h1 h2 h3
+    simp only [findIndexFrom]
+    split_ifs with c1 c2
+    · exact ⟨le_refl _, h2, h3, Or.inl c1⟩
+    · have := ih (i + 1) (by omega) (by omega) (by
+        intro j hj
+        rcases Nat.lt_succ_iff_lt_or_eq.mp hj with h | h
+        · exact h3 j h
+        · subst h; exact c2)
+      exact ⟨by omega, this.2.1, this.2.2.1, this.2.2.2⟩
+    · exact ⟨le_refl _, h2, h3, Or.inr (not_lt.mp c2)⟩
+
+
+/-- slope of the linear piece `i` -/
+def slope (x y : Vec K) (i : Nat) : K := (y.get (i + 1) - y.get i) / (x.get (i + 1) - x.get i)
+
+theorem linPiece_eq (x y : Vec K) (a : K) (i : Nat) :
+    linPiece x y a i = (y.get i + slope x y i * (a - x.get i), slope x y i) := rfl
+
+theorem findIndex_interior {x : Vec K} {n : Nat} (hx : StrictInc x n) {a : K}
+    (h0 : x.get 0 < a) (h1 : a < x.get (n - 1)) :
+    findIndex x n a + 1 < n ∧ x.get (findIndex x n a) < a ∧ a ≤ x.get (findIndex x n a + 1) := by
+  have hn : 2 ≤ n := by
+    by_contra hc
+    have : n - 1 = 0 := by omega
+    rw [this] at h1
+    exact absurd (lt_trans h0 h1) (lt_irrefl _)
+  obtain ⟨-, r2, r3, r4⟩ := findIndexFrom_spec x n a n 0 (by omega) (by omega) (by intro j hj; omega)
+  change findIndex x n a < n at r2
+  change ∀ j, j < findIndex x n a → x.get (j + 1) < a at r3
+  change findIndex x n a + 1 = n ∨ a ≤ x.get (findIndex x n a + 1) at r4
+  generalize findIndex x n a = r at *
+  have hlt : x.get r < a := by
+    rcases Nat.eq_zero_or_pos r with h | h
+    · subst h; exact h0
+    · have := r3 (r - 1) (by omega)
+      rwa [Nat.sub_add_cancel h] at this
+  rcases r4 with h | h
+  · exfalso
+    have : r = n - 1 := by omega
+    subst this
+    exact absurd (lt_trans hlt h1) (lt_irrefl _)
+  · refine ⟨?_, hlt, h⟩
+    by_contra hc
+    have : r = n - 1 := by omega
+    subst this
+    exact absurd (lt_trans hlt h1) (lt_irrefl _)
+
+theorem slope_step {x y : Vec K} {n : Nat} (hx : StrictInc x n) {i : Nat} (hi : i + 1 < n) :
+    y.get i + slope x y i * (x.get (i + 1) - x.get i) = y.get (i + 1) := by
+  have : x.get (i + 1) - x.get i ≠ 0 := sub_ne_zero.mpr (ne_of_gt (hx i hi))
+  unfold slope
+  field_simp
+  ring
+
+theorem linear_one (e : Bool) (x y : Vec K) (a : K) : linear e x y 1 a = (y.get 0, 0) := by
+  simp [linear]
+
+theorem linear_left (e : Bool) (x y : Vec K) {n : Nat} (hn : n ≠ 1) {a : K} (h : ¬ x.get 0 < a) :
+    linear e x y n a = if e then linPiece x y a 0 else (y.get 0, 0) := by
+  unfold linear
+  rw [if_neg hn, if_pos h]
+
+theorem linear_right (e : Bool) (x y : Vec K) {n : Nat} (hn : n ≠ 1) {a : K} (h : x.get 0 < a)
+    (h' : ¬ a < x.get (n - 1)) :
+    linear e x y n a = if e then linPiece x y a (n - 2) else (y.get (n - 1), 0) := by
+  unfold linear
+  rw [if_neg hn, if_neg (not_not.mpr h), if_pos h']
+
+theorem linear_mid (e : Bool) (x y : Vec K) {n : Nat} (hn : n ≠ 1) {a : K} (h : x.get 0 < a)
+    (h' : a < x.get (n - 1)) :
+    linear e x y n a = linPiece x y a (findIndex x n a) := by
+  unfold linear
+  rw [if_neg hn, if_neg (not_not.mpr h), if_neg (not_not.mpr h')]
+
+/-- on the closed interval `[x i, x (i+1)]` the interpolation is the affine piece `i`
+(whatever `extrapolate`) -/
+theorem linear_on_interval {x y : Vec K} {n : Nat} (hx : StrictInc x n) (e : Bool) {i : Nat}
+    (hi : i + 1 < n) {a : K} (ha0 : x.get i ≤ a) (ha1 : a ≤ x.get (i + 1)) :
+    (linear e x y n a).1 = y.get i + slope x y i * (a - x.get i) := by
+  have hn1 : n ≠ 1 := by omega
+  by_cases c1 : x.get 0 < a
+  · by_cases c3 : a < x.get (n - 1)
+    · rw [linear_mid e x y hn1 c1 c3]
+      obtain ⟨r1, r2, r3⟩ := findIndex_interior hx c1 c3
+      rw [linPiece_eq]
+      generalize findIndex x n a = r at *
+      rcases Nat.lt_trichotomy r i with h | h | h
+      · have hle : x.get (r + 1) ≤ x.get i := hx.le (by omega) (by omega)
+        have hEq : a = x.get i := le_antisymm (le_trans r3 hle) ha0
+        have hr : r + 1 = i := by
+          by_contra hc
+          have := hx.lt (by omega : r + 1 < i) (by omega)
+          exact absurd (lt_of_le_of_lt r3 this) (by rw [hEq]; exact lt_irrefl _)
+        subst hr
+        rw [hEq]
+        show y.get r + slope x y r * (x.get (r + 1) - x.get r) = _
+        rw [slope_step hx r1]
+        simp
+      · subst h; rfl
+      · exfalso
+        have hle : x.get (i + 1) ≤ x.get r := hx.le (by omega) (by omega)
+        exact absurd (lt_of_lt_of_le r2 (le_trans ha1 hle)) (lt_irrefl _)
+    · rw [linear_right e x y hn1 c1 c3]
+      have hle : x.get (i + 1) ≤ x.get (n - 1) := hx.le (by omega) (by omega)
+      have hEq : a = x.get (n - 1) := le_antisymm (le_trans ha1 hle) (not_lt.mp c3)
+      have hi1 : i + 1 = n - 1 := by
+        by_contra hc
+        have := hx.lt (by omega : i + 1 < n - 1) (by omega)
+        exact absurd (lt_of_le_of_lt ha1 this) (by rw [hEq]; exact lt_irrefl _)
+      have h2 : n - 2 = i := by omega
+      cases e
+      · simp only [Bool.false_eq_true, if_false]
+        rw [hEq, ← hi1]
+        exact (slope_step hx hi).symm
+      · simp only [if_true]
+        rw [h2, linPiece_eq]
+  · rw [linear_left e x y hn1 c1]
+    have hi0 : i = 0 := by
+      by_contra hc
+      have := hx.lt (Nat.pos_of_ne_zero hc) (by omega : i < n)
+      exact c1 (lt_of_lt_of_le this ha0)
+    subst hi0
+    cases e
+    · have : a = x.get 0 := le_antisymm (not_lt.mp c1) ha0
+      subst this
+      simp
+    · simp only [if_true]
+      rw [linPiece_eq]
+
+
+theorem findIndex_unique {x : Vec K} {n : Nat} (hx : StrictInc x n) {a : K}
+    (h0 : x.get 0 < a) (h1 : a < x.get (n - 1)) {i : Nat} (hi : i + 1 < n)
+    (ha0 : x.get i < a) (ha1 : a ≤ x.get (i + 1)) : findIndex x n a = i := by
+  obtain ⟨r1, r2, r3⟩ := findIndex_interior hx h0 h1
+  generalize findIndex x n a = r at *
+  rcases Nat.lt_trichotomy r i with h | h | h
+  · exfalso
+    have hle : x.get (r + 1) ≤ x.get i := hx.le (by omega) (by omega)
+    exact absurd (lt_of_lt_of_le ha0 (le_trans r3 hle)) (lt_irrefl _)
+  · exact h
+  · exfalso
+    have hle : x.get (i + 1) ≤ x.get r := hx.le (by omega) (by omega)
+    exact absurd (lt_of_lt_of_le r2 (le_trans ha1 hle)) (lt_irrefl _)
+
+/-! ### lower_bound -/
+
+/-- the first `n` abscissae are non-decreasing -/
+def Mono (x : Vec K) (n : Nat) : Prop := ∀ i j, i ≤ j → j < n → x.get i ≤ x.get j
+
+theorem StrictInc.mono {x : Vec K} {n : Nat} (h : StrictInc x n) : Mono x n :=
+  fun _ _ hij hj => h.le hij hj
+
+theorem lowerBoundAux_spec {x : Vec K} {n : Nat} (hx : Mono x n) (v : K) :
+    ∀ fuel first len, len ≤ fuel → first + len ≤ n → (∀ j, j < first → x.get j < v) →
+      (∀ j, first + len ≤ j → j < n → ¬ x.get j < v) →
+      lowerBoundAux x v fuel first len ≤ n ∧
+      (∀ j, j < lowerBoundAux x v fuel first len → x.get j < v) ∧
+      (∀ j, lowerBoundAux x v fuel first len ≤ j → j < n → ¬ x.get j < v) := by
+  intro fuel
+  induction fuel with
+  | zero =>
+    intro first len h1 h2 h3 h4
+    simp only [lowerBoundAux]
+    have : len = 0 := by omega
+    subst this
+    exact ⟨by omega, h3, h4⟩
+  | succ f ih =>
+    intro first len h1 h2 h3 h4
+    simp only [lowerBoundAux]
+    split_ifs with c1 c2
+    · subst c1
+      exact ⟨by omega, h3, h4⟩
+    · have hh : len / 2 < len := Nat.div_lt_self (Nat.pos_of_ne_zero c1) (by omega)
+      apply ih
+      · omega
+      · omega
+      · intro j hj
+        exact lt_of_le_of_lt (hx j (first + len / 2) (by omega) (by omega)) c2
+      · intro j hj hjn
+        exact h4 j (by omega) hjn
+    · have hh : len / 2 < len := Nat.div_lt_self (Nat.pos_of_ne_zero c1) (by omega)
+      apply ih
+      · omega
+      · omega
+      · exact h3
+      · intro j hj hjn hlt
+        exact c2 (lt_of_le_of_lt (hx (first + len / 2) j hj hjn) hlt)
+
+/-- `lower_bound` returns the index of the first node that is not `< v` (`n` if there is none) -/
+theorem lowerBound_spec {x : Vec K} {n : Nat} (hx : Mono x n) (v : K) :
+    lowerBound x n v ≤ n ∧ (∀ j, j < lowerBound x n v → x.get j < v) ∧
+      (∀ j, lowerBound x n v ≤ j → j < n → v ≤ x.get j) := by
+  obtain ⟨h1, h2, h3⟩ := lowerBoundAux_spec hx v n 0 n (le_refl _) (by omega)
+    (by intro j hj; omega) (by intro j hj hjn; omega)
+  exact ⟨h1, h2, fun j hj hjn => not_lt.mp (h3 j hj hjn)⟩
+
+theorem lowerBound_eq {x : Vec K} {n : Nat} (hx : Mono x n) {v : K} {k : Nat} (hk : k ≤ n)
+    (h1 : ∀ j, j < k → x.get j < v) (h2 : ∀ j, k ≤ j → j < n → v ≤ x.get j) :
+    lowerBound x n v = k := by
+  obtain ⟨r1, r2, r3⟩ := lowerBound_spec hx v
+  generalize lowerBound x n v = r at *
+  rcases Nat.lt_trichotomy r k with h | h | h
+  · exact absurd (h1 r h) (not_lt.mpr (r3 r (le_refl _) (by omega)))
+  · exact h
+  · exact absurd (r2 k h) (not_lt.mpr (h2 k (le_refl _) (by omega)))
+
+theorem lowerBound_left {x : Vec K} {n : Nat} (hx : StrictInc x n) {v : K} (h : v ≤ x.get 0) :
+    lowerBound x n v = 0 :=
+  lowerBound_eq hx.mono (Nat.zero_le _) (by intro j hj; omega)
+    (fun j _ hjn => le_trans h (hx.le (Nat.zero_le _) hjn))
+
+theorem lowerBound_right {x : Vec K} {n : Nat} (hx : StrictInc x n) {v : K} (hn : 0 < n)
+    (h : x.get (n - 1) < v) : lowerBound x n v = n :=
+  lowerBound_eq hx.mono (le_refl _)
+    (fun j hj => lt_of_le_of_lt (hx.le (by omega) (by omega)) h) (by intro j hj hjn; omega)
+
+theorem lowerBound_piece {x : Vec K} {n : Nat} (hx : StrictInc x n) {v : K} {i : Nat}
+    (hi : i + 1 < n) (h0 : x.get i < v) (h1 : v ≤ x.get (i + 1)) : lowerBound x n v = i + 1 :=
+  lowerBound_eq hx.mono (by omega)
+    (fun j hj => lt_of_le_of_lt (hx.le (by omega) (by omega)) h0)
+    (fun j hj hjn => le_trans h1 (hx.le hj hjn))
+
+theorem lowerBound_node {x : Vec K} {n : Nat} (hx : StrictInc x n) {i : Nat} (hi : i < n) :
+    lowerBound x n (x.get i) = i :=
+  lowerBound_eq hx.mono (by omega) (fun j hj => hx.lt hj hi) (fun j hj hjn => hx.le hj hjn)
+
+
+/-! ### the local cubic -/
+
+/-- value of the cubic piece `i` at the offset `t` from `x i` -/
+def pieceVal (x y d : Vec K) (i : Nat) (t : K) : K :=
+  y.get i + t * (d.get i + t * ((coef x y d i).1 + t * (coef x y d i).2))
+
+/-- first derivative of the cubic piece `i` as written in the code -/
+def pieceDer (x y d : Vec K) (i : Nat) (t : K) : K :=
+  d.get i + t * (2 * (coef x y d i).1 + t * 3 * (coef x y d i).2)
+
+/-- second derivative of the cubic piece `i` as written in the code -/
+def pieceD2 (x y d : Vec K) (i : Nat) (t : K) : K :=
+  2 * (coef x y d i).1 + t * 6 * (coef x y d i).2
+
+theorem splineEval_one (e : Bool) (x y d : Vec K) (a : K) : splineEval e x y d 1 a = (y.get 0, 0) := by
+  simp [splineEval]
+
+theorem splineEval_of_lb (e : Bool) (x y d : Vec K) {n : Nat} (hn : n ≠ 1) (a : K) {k : Nat}
+    (hk : lowerBound x n a = k) :
+    splineEval e x y d n a =
+      if k = 0 then
+        (if e then (y.get 0 + (a - x.get 0) * d.get 0, d.get 0) else (y.get 0, 0))
+      else if k = n then
+        (if e then (y.get (n - 1) + (a - x.get (n - 1)) * d.get (n - 1), d.get (n - 1))
+         else (y.get (n - 1), 0))
+      else (pieceVal x y d (k - 1) (a - x.get (k - 1)), pieceDer x y d (k - 1) (a - x.get (k - 1))) := by
+  unfold splineEval
+  rw [if_neg hn]
+  simp only [hk]
+  rfl
+
+theorem splineEval3_of_lb (x y d : Vec K) {n : Nat} (hn : n ≠ 1) (a : K) {k : Nat}
+    (hk : lowerBound x n a = k) :
+    splineEval3 x y d n a =
+      if k = 0 then (y.get 0 + (a - x.get 0) * d.get 0, d.get 0, 0)
+      else if k = n then (y.get (n - 1) + (a - x.get (n - 1)) * d.get (n - 1), d.get (n - 1), 0)
+      else (pieceVal x y d (k - 1) (a - x.get (k - 1)), pieceDer x y d (k - 1) (a - x.get (k - 1)),
+            pieceD2 x y d (k - 1) (a - x.get (k - 1))) := by
+  unfold splineEval3
+  rw [if_neg hn]
+  simp only [hk]
+  rfl
+
+theorem coef_eq (x y d : Vec K) (i : Nat) :
+    coef x y d i =
+      ((3 * ((y.get (i + 1) - y.get i) * (1 / (x.get (i + 1) - x.get i))) - d.get (i + 1) - 2 * d.get i) *
+          (1 / (x.get (i + 1) - x.get i)),
+       (-2 * ((y.get (i + 1) - y.get i) * (1 / (x.get (i + 1) - x.get i))) + d.get (i + 1) + d.get i) *
+          (1 / (x.get (i + 1) - x.get i)) * (1 / (x.get (i + 1) - x.get i))) := rfl
+
+/-- Hermite conditions at the right end of a piece (any slopes) -/
+theorem pieceVal_right (x y d : Vec K) (i : Nat) (h : x.get (i + 1) - x.get i ≠ 0) :
+    pieceVal x y d i (x.get (i + 1) - x.get i) = y.get (i + 1) := by
+  unfold pieceVal
+  rw [coef_eq]
+  field_simp
+  ring
+
+theorem pieceDer_right (x y d : Vec K) (i : Nat) (h : x.get (i + 1) - x.get i ≠ 0) :
+    pieceDer x y d i (x.get (i + 1) - x.get i) = d.get (i + 1) := by
+  unfold pieceDer
+  rw [coef_eq]
+  field_simp
+  ring
+
+theorem pieceVal_left (x y d : Vec K) (i : Nat) : pieceVal x y d i 0 = y.get i := by
+  simp [pieceVal]
+
+theorem pieceDer_left (x y d : Vec K) (i : Nat) : pieceDer x y d i 0 = d.get i := by
+  simp [pieceDer]
+
+/-- `pieceDer` is the formal derivative of `pieceVal` (Taylor expansion with explicit remainder) -/
+theorem pieceVal_taylor (x y d : Vec K) (i : Nat) (t e : K) :
+    pieceVal x y d i (t + e) = pieceVal x y d i t + e * pieceDer x y d i t +
+      e * e * ((coef x y d i).1 + (3 * t + e) * (coef x y d i).2) := by
+  unfold pieceVal pieceDer
+  ring
+
+/-- `pieceD2` is the formal derivative of `pieceDer` -/
+theorem pieceDer_taylor (x y d : Vec K) (i : Nat) (t e : K) :
+    pieceDer x y d i (t + e) = pieceDer x y d i t + e * pieceD2 x y d i t +
+      e * e * (3 * (coef x y d i).2) := by
+  unfold pieceDer pieceD2
+  ring
+
 end TfelVerif.C11
